@@ -7,14 +7,14 @@ Import ListNotations.
 
 (* invariant "Compiled f => f = compile cls fmt dir dialect": every state reachable from the empty module by
    class definitions in any order (eager / lazy / postponed) and calls is well formed *)
-Theorem C14_reachable_wf : forall F d5 fuel h st, wf st -> Forall (op_ok F) h ->
+Theorem C14_reachable_wf : forall F d5 fuel h st, wf st ->
   wf (fold_left (fun s o => fst (LazyModel.step F d5 fuel s o)) h st).
 Proof. exact reachable_wf. Qed.
 Print Assumptions C14_reachable_wf.
 
 (* a call that answers, answers the state-independent meaning [den] of (class, method, dialect, input) *)
 Theorem C14_call_state_independent : forall F d5 fuel x st c m d st' o,
-  wf st -> (d = None \/ spec_free F) -> call F d5 fuel x st c m d = (st', o) ->
+  wf st -> call F d5 fuel x st c m d = (st', o) ->
   wf st' /\ (forall t, o = Out t -> t = den F x c m d).
 Proof. exact call_den. Qed.
 Print Assumptions C14_call_state_independent.
@@ -22,14 +22,14 @@ Print Assumptions C14_call_state_independent.
 (* history independence, partial: whenever the family under test (any mode, any earlier history) and its
    twin both answer the i-th operation, the answers are equal.  Full statement: LazyExamples.history_full. *)
 Theorem C14_history_partial : forall F F' d5 d5' fuel fuel' st st' h i t t',
-  same_shape F F' -> wf st -> wf st' -> Forall (op_ok F) h ->
+  same_shape F F' -> wf st -> wf st' ->
   nth_error (LazyModel.run F d5 fuel st h) i = Some (Out t) ->
   nth_error (LazyModel.run F' d5' fuel' st' h) i = Some (Out t') ->
   t = t'.
 Proof. exact history_partial. Qed.
 Print Assumptions C14_history_partial.
 
-(* the full statement fails in the faithful model (known finding C14/dialect-call-before-default-compile) *)
+(* the full statement fails in the faithful model (known finding C14/ondemand-build-cycle) *)
 Definition C14_history_full : Prop := history_full.
 Theorem C14_history_refuted : ~ C14_history_full.
 Proof. exact history_refuted. Qed.
@@ -59,15 +59,25 @@ Theorem C14_lazy_specialisation_diverges :
 Proof. split; [exact spec_loop|exact lazy_specialisation_diverges]. Qed.
 Print Assumptions C14_lazy_specialisation_diverges.
 
-Theorem C14_dialect_first_raises :
-  nth_error (LazyModel.run (F_dial true) true FUEL st0 h_dial) 2 = Some (Exc EAttrCache) /\
-  nth_error (LazyModel.run (F_dial false) true FUEL st0 h_dial) 2 =
+(* after fix 28d8957: no call fails on a missing dialect cache, in any state / mode / order *)
+Theorem C14_no_cache_attribute_error : forall F d5 fuel x st c m d st' o,
+  (d <> None -> c_dsup (cls F c) = true) ->
+  call F d5 fuel x st c m d = (st', o) -> o <> Exc EAttrCache.
+Proof. exact no_cache_attribute_error. Qed.
+Print Assumptions C14_no_cache_attribute_error.
+
+Example C14_dialect_first_agrees :
+  nth_error (LazyModel.run (F_dial true) true FUEL st0 h_dial) 2 =
     Some (Out (Node 1 to_dict (Some 1) [Node 0 to_dict None []])) /\
-  nth_error (LazyModel.run (F_dial true) true FUEL st0
-               [Define 0; Define 1; Call 1 to_dict None (V [(0, V [])]); Call 1 to_dict (Some 1) (V [(0, V [])])]) 3 =
-    Some (Out (Node 1 to_dict (Some 1) [Node 0 to_dict None []])).
-Proof. exact dialect_first_raises. Qed.
-Print Assumptions C14_dialect_first_raises.
+  LazyModel.run (F_dial true) true FUEL st0 h_dial = LazyModel.run (F_dial false) true FUEL st0 h_dial.
+Proof. exact dialect_first_agrees. Qed.
+
+Theorem C14_dialect_first_selfref_raises :
+  nth_error (LazyModel.run F_self true FUEL st0 [Define 0; Call 0 to_msgpack (Some 1) (V [(0, V [])])]) 1 = Some (Exc EAttrMeth) /\
+  nth_error (LazyModel.run F_self true FUEL st0 [Define 0; Call 0 to_msgpack None (V [(0, V [])]); Call 0 to_msgpack (Some 1) (V [(0, V [])])]) 2 =
+    Some (Out (Node 0 (MN true 1 false 0) (Some 1) [Node 0 (MN true 1 false 0) (Some 1) []])).
+Proof. exact dialect_first_selfref_raises. Qed.
+Print Assumptions C14_dialect_first_selfref_raises.
 
 Theorem C14_build_cycle_diverges :
   nth_error (LazyModel.run (F_cyc false) true FUEL st0 h_cyc) 2 = Some (Exc EBuildCycle) /\
